@@ -709,7 +709,7 @@ def m_vec_macro(ex, st, callee, A):
         return A[0]
     if (re.search(r'slice::<impl \[.*\]>::iter$', callee) or re.search(r'^<&(?:std::vec::|alloc::vec::)?Vec<.*> as IntoIterator>::into_iter$', callee) or re.search(r'^<&\[.*\] as IntoIterator>::into_iter$', callee)) and isinstance(A[0], Ref):
         v = deref_(A[0])
-        if isinstance(v, Agg) and v.name == '~vec':
+        if isinstance(v, Agg) and (v.name == '~vec' or v.kind == 'array'):     # an array seen as a slice (`&[x]`) iterates like a vector
             f2, p2 = ex.resolve_place(st, A[0].fid, A[0].place) if not isinstance(ex.read(st, A[0].fid, A[0].place), Agg) else (A[0].fid, A[0].place)
             # references to the elements in place
             base = A[0]
